@@ -73,8 +73,8 @@ c.finish(
         "CCITTFax: at most ccitt_max_rows(Columns, Rows) rows - the encoder refuses more (F67), which the harness requires",
         "chain_rt: at most 8 filters (maxFilterChainLength, GetFilters rejects longer chains); each stage satisfies "
         "dec(MakeFilter(Info s))(enc s x) = x - proved for ASCIIHex, ASCII85, RunLength, LZW, PNG and TIFF predictors "
-        "and CCITTFax with K = 0 (g3_1d_rt: rows of ceil(Columns/8) bytes with zero padding bits, at most Rows rows); "
-        "assumed for Flate (zlib) and CCITTFax with K != 0",
+        "and CCITTFax with K = 0 (g3_1d_rt) and K < 0 (g4_rt): rows of ceil(Columns/8) bytes with zero padding bits, at "
+        "most ccitt_max_rows rows; assumed for Flate (zlib) and CCITTFax with K > 0",
         "MakeFilter treats an empty parameter dictionary like a missing one (every parse function only looks keys up)",
         "Go ints are 64 bit (flate_ints / int_ok)",
     ],
@@ -84,16 +84,15 @@ c.finish(
         "decode agreement on damaged encodings and parameter/chain observations",
         "coq/C06/CCITT.v: Group 3 one-dimensional coding (K = 0) with the code tables translated from "
         "internal/filter/ccittfax/tables.go (Gen_C06ccitt.v), tied by cross round trip on images and damaged code streams",
-        "coq/C06/CCITT2D.v: Group 4 (K < 0) two-dimensional coding, tied by cross round trip on images and damaged code streams",
+        "coq/C06/CCITT2D.v: Group 4 (K < 0) two-dimensional coding (changing elements, pass/vertical/horizontal modes, "
+        "EOFB, byte alignment, reference row), tied by cross round trip on images and damaged code streams; "
+        "coq/C06/CCITTParams.v: the row limit, its geometric part translated from FilterCCITTFax.toParams (Gen_C06ccitt2d.v)",
         "zlib (compress/zlib) and mixed CCITT coding (K > 0) are not modelled: only their parameters and "
         "their place in a chain; their round trips are tested on the implementation",
     ],
     partial=[
-        "g4_rt_all (Group 4 / two-dimensional coding, whole images) is stated as a Definition; proved parts: "
-        "g4_full_run_rt, full_run_complete_iff, full_run_bound (horizontal-mode run decoder with the iteration bound taken "
-        "from the Go source), ccitt_mode_table, g4_row_sync_partial (decoder stays in step with the encoder through the "
-        "pass/vertical/horizontal codes of a row and consumes exactly its bits; missing: painted pixels = row, rows/EOFB/"
-        "alignment bookkeeping); the executable model coq/C06/CCITT2D.v carries the rest by correspondence "
-        "(cross round trip and damaged code streams for K < 0); K > 0 (mixed) is tested on the implementation only",
+        "CCITTFax with K > 0 (Group 3 two-dimensional / mixed coding) and Flate have no model: their round trips are "
+        "tested on the implementation only and enter chain_rt as premises (every other codec, including CCITTFax "
+        "K = 0 and K < 0, is proved for all inputs of its domain)",
     ],
 )
